@@ -74,7 +74,11 @@ def stepFamilies (st : St) (cmd : List String) (got : String) : St × Verdict :=
 
 /-- plane-level BSI tracking runs alongside the command families: the extra checks use the state BEFORE the line -/
 def stepAll (st : St) (cmd : List String) (got : String) : St × Verdict :=
-  let extra := match checkBsiL2 st cmd got with | some m => some m | none => checkBsiBig st cmd got
+  let extra := match checkBsiL2 st cmd got with
+    | some m => some m
+    | none => (match checkBsiBig st cmd got with
+               | some m => some m
+               | none => checkBsi32Ops st cmd got)
   let extraS64 := checkSer64L2 st cmd got
   let (l2it', extraIt) := shadowIterL2 st cmd got
   let (l2uit', l2it64', extraIt2) := shadowIter2 st cmd got
